@@ -55,6 +55,7 @@ func TestCheck(t *testing.T) {
 	only := os.Getenv("C15_ONLY")
 	if only == "" || only == "staticset" {
 		runStaticScenario(res, half)
+		runStaticRepeated(res, half)
 	}
 	debug.SetGCPercent(400) // many tiny allocations per ReadAt; the live heap is a few MB
 	for _, sp := range readerSpaces() {
